@@ -104,6 +104,8 @@ func (b *CombinationColexIterator) Next() bool {
 	}
 
 	if b.data[b.k-1] == b.n-1 {
+		//This was the last subset. Any further call takes the first branch again and keeps returning false.
+		b.j = b.k
 		return false
 	}
 	b.data[b.k-1]++
